@@ -175,6 +175,7 @@ var _ jsonschema.Ref
 //@   modifies log:stage
 //@   ensures routed: err == nil ==> g != nil && opts.ExpandSpec == "" ==> vSeqEq(vLogStr("stage"), vCat(old(vLogStr("stage")), []string{"ir", "route"}))
 //@   ensures failed: err != nil ==> g == nil
+//@   ensures nowrite_on_failure__kfExpandEarly: err != nil ==> (forall k in (len(old(vLogStr("stage"))), len(vLogStr("stage"))) :: vLogStr("stage")[k] != "expand")
 
 var _ *ogen.Spec
 var _ *openapi.API
